@@ -184,6 +184,15 @@ def deep_tier(rng) -> bool:
     return os.environ.get("HISTSIM_TIER") == "thorough" and rng.random() < 0.35
 
 
+def bulk_tier(rng) -> bool:
+    """A few runs per hundred are *bulk* runs: hundreds to thousands of entries per batch, dozens to hundreds of bins,
+    long operation chains - code paths that depend on a size threshold (vectorised / chunked fast paths, caches)
+    are not reachable by the small scenarios that make up the rest of the swarm."""
+    import os
+
+    return rng.random() < (0.08 if os.environ.get("HISTSIM_TIER") == "thorough" else 0.03)
+
+
 def make_rng(seed: int) -> random.Random:
     return random.Random(seed)
 
